@@ -126,6 +126,9 @@ type Thread struct {
 	idx     int
 	vc      []uint32
 	lastRun int
+	repo    bool  // spawned by a `go` statement of the repository (not a harness / actor thread)
+	held    bool  // held back by a HoldBack deviation
+	heldNow int64 // virtual time of the hold
 	// select / channel hand-off result storage
 	Sel SelResult
 	// Daemon threads do not count for anything special; informational.
@@ -237,6 +240,18 @@ var cur *Exec
 // departure from the deterministic default scheduler (continue the running thread, else the lowest
 // thread id, clock last) is a deviation. Set by Explore from Options.
 var BoundAll bool
+
+// HoldBack adds one more kind of deviation: at a scheduling point where a goroutine of the repository could
+// continue it may instead be held back - it is not scheduled again until no other thread can move and no timer
+// is due at the current virtual instant (virtual time never advances because of a hold). Delay
+// bounding alone postpones a thread by one round per deviation; one hold lets everybody else run until they all
+// wait. HoldLagNs lets it lag behind by a bounded amount of virtual time as well.
+var HoldBack bool
+
+// HoldLagNs bounds how far a held thread may lag behind in virtual time: timers due up to this long after the
+// moment of the hold fire before it resumes. 0: time stands still for a hold. Oracles with time bounds must add
+// the lag to their allowance.
+var HoldLagNs int64
 
 // NoEarlyClock forbids early timer expiry (the clock then only advances when no thread can run).
 var NoEarlyClock bool
@@ -393,6 +408,17 @@ func Go(name string, fn func()) *Thread {
 	return e.newThread(e.running, name, fn)
 }
 
+// GoRepo is what the instrumenter turns the repository's `go` statements into: the thread is one of the
+// emulator's own goroutines. Only those may be held back (sched.HoldBack): holding an actor or caller thread
+// back would model a slow runtime, extension or client, whose outcome the oracles judge differently.
+func GoRepo(name string, fn func()) *Thread {
+	t := Go(name, fn)
+	if t != nil {
+		t.repo = true
+	}
+	return t
+}
+
 // GoFromClock spawns a thread whose parent is the clock pseudo-thread (AfterFunc bodies).
 func (e *Exec) goFromClock(name string, fn func()) *Thread {
 	return e.newThread(e.clockThread, name, fn)
@@ -525,7 +551,7 @@ func callerPos() string {
 }
 
 func (t *Thread) enabled() bool {
-	if t.done || t.pend == nil || t.pend.Idle || t.pend.Quiet {
+	if t.done || t.pend == nil || t.pend.Idle || t.pend.Quiet || t.held {
 		return false
 	}
 	p := t.pend
@@ -603,6 +629,23 @@ func (e *Exec) schedule(t *Thread) {
 			sort.SliceStable(rest, func(i, j int) bool { return rest[i].lastRun < rest[j].lastRun })
 		}
 		if len(en) == 0 {
+			// no thread can move: a thread that was held back resumes (oldest hold first) once a timer has fired
+			// since, or if there is no timer to wait for
+			for _, th := range e.threads {
+				if !th.held || th.done {
+					continue
+				}
+				if e.clk.dueBy(th.heldNow + HoldLagNs) {
+					continue // timers due within the allowed lag go first: the held thread is slower than they are
+				}
+				th.held = false
+				if th.enabled() {
+					en = append(en, th)
+					break
+				}
+			}
+		}
+		if len(en) == 0 {
 			// no thread can move: a thread waiting for quietness goes before the clock
 			for _, th := range e.threads {
 				if !th.done && th.pend != nil && th.pend.Quiet {
@@ -634,6 +677,11 @@ func (e *Exec) schedule(t *Thread) {
 		choice := 0
 		if len(en) > 1 {
 			p := Point{N: len(en), Costs: make([]int, len(en)), Kind: 's'}
+			if HoldBack && tEnabled && e.region && t.repo {
+				// one more alternative: hold the running thread back (index len(en))
+				p.N++
+				p.Costs = append(p.Costs, 1)
+			}
 			for i := range en {
 				switch {
 				case en[i] == e.clockThread:
@@ -653,6 +701,12 @@ func (e *Exec) schedule(t *Thread) {
 				}
 			}
 			p.Key = e.fingerprint(t).Mix(uint64(len(en)))
+			for _, th := range e.threads {
+				if th.held {
+					p.Key = p.Key.Mix(th.idHash.A ^ 0x4e1d)
+					p.Key = p.Key.Mix(uint64(th.heldNow))
+				}
+			}
 			if BoundAll {
 				// the queue order is scheduler state: it decides the default continuation
 				for _, th := range en {
@@ -681,11 +735,19 @@ func (e *Exec) schedule(t *Thread) {
 				e.park(t)
 				return
 			}
-			if choice >= len(en) {
-				panic(fmt.Sprintf("verif: replay divergence: choice %d of %d at decision %d", choice, len(en), len(e.Points)))
+			if choice >= p.N {
+				panic(fmt.Sprintf("verif: replay divergence: choice %d of %d at decision %d", choice, p.N, len(e.Points)))
 			}
 			p.Chosen = choice
 			e.Points = append(e.Points, p)
+			if choice == len(en) {
+				// hold back the running thread and decide again without it
+				t.held, t.heldNow = true, e.clk.now
+				if e.Trace {
+					e.Log = append(e.Log, fmt.Sprintf("%5d t=%-9d %-28s HELD BACK at %s", e.Steps, e.clk.now, t.Name+"("+t.ID+")", t.pend.Kind+" @"+t.pend.pos))
+				}
+				continue
+			}
 		}
 		next := en[choice]
 		if next == e.clockThread {
